@@ -547,7 +547,6 @@ func typeMentions(t types.Type, name string) bool {
 	return strings.Contains(types.TypeString(t, nil), name)
 }
 
-
 // recordCall appends a ghost call event (callee, flattened arguments, flattened results) to the trace.
 func (e *Engine) recordCall(s *State, fn *ssa.Function, args []Value, res Value) {
 	var flat []*Term
